@@ -34,7 +34,8 @@ for d in sorted(glob.glob(os.path.join(V, "seeded", "*", "meta.json"))):
     s = m.get("summary", "").replace("|", "\\|").replace("\n", " ")
     if len(s) > 260:
         s = s[:257] + "..."
-    out.append(f"| {sid} | {s} | {cb.get('property','')} `{cb.get('harness','')}`: `{cb.get('label','')}` | {m.get('history','').replace('|','/')} |")
+    caught = f"{cb.get('property','')} `{cb.get('harness','')}`: `{cb.get('label','')}`" if cb else "**not caught**"
+    out.append(f"| {sid} | {s} | {caught} | {m.get('history','').replace('|','/')} |")
 out.append("")
 out.append("### 12.3 Findings (from `known_findings.txt`)\n")
 out.append("| status | property | commit / label | what failed |")
